@@ -172,6 +172,17 @@ def two_register_measurements_then_flush(conn, q, arr, reg):
     return "flushed"
 
 
+def array_undefine(conn, q, arr, reg):
+    arr.undefine()
+    return []
+
+
+def array_undefine_twice(conn, q, arr, reg):
+    arr.undefine()
+    conn.new_array(2, init_values=[1, 2]).undefine()
+    return []
+
+
 def measure_into_array(conn, q, arr, reg):
     q.measure(inplace=True)
     return []
@@ -228,6 +239,8 @@ OPS = {
     "enumerate + add(any int)": enumerate_add_any_int,
     "measure into a register + flush": measure_into_register_then_flush,
     "two measurements into registers + flush": two_register_measurements_then_flush,
+    "Array.undefine()": array_undefine,
+    "Array.undefine() on two arrays": array_undefine_twice,
     "measure into array": measure_into_array,
     "measure into future": measure_into_future,
     "measure into Future-indexed entry": measure_into_future_indexed_entry,
@@ -251,6 +264,10 @@ def epr_op(conn, sock, kind, number, post):
             sock.recv_keep(number=number, sequential=True, post_routine=_post_x)
         else:
             sock.recv_keep(number=number)
+    elif kind == "create_keep_min_fidelity":
+        sock.create_keep(number=number, min_fidelity_all_at_end=80, max_tries=3)
+    elif kind == "recv_keep_min_fidelity":
+        sock.recv_keep(number=number, min_fidelity_all_at_end=80, max_tries=3)
     elif kind == "recv_measure":
         sock.recv_measure(number=number)
     elif kind == "create_measure":
